@@ -3,7 +3,7 @@
 set -e
 export GOFLAGS=-mod=mod GOPROXY=off GOSUMDB=off GOTOOLCHAIN=local
 S="$1"; RACE="$2"; SRC="${3:-/repo}"
-V=/verif
+V="${VERIF_DIR:-$(cd "$(dirname "${BASH_SOURCE[0]}")" && pwd)}"
 mkdir -p "$S/src"
 "$V/bin/simprep" -src "$SRC" -dst "$S/src" -report "$S/simprep.json"
 for f in "$V"/harness/*.go; do cp "$f" "$S/src/zz_$(basename "${f%.go}")_test.go"; done
